@@ -7,37 +7,26 @@ shape makes the flag `false`, the full-strength obligations in Props/C11.lean th
 import IpcHub.Model.AuthSess
 import IpcHub.Model.PathMatchInst
 import IpcHub.Gen.C11Facts
+import IpcHub.Model.AuthExpect
 namespace IpcHub.Auth
 open IpcHub.PathMatch
 
-namespace Expected
-def userInit : List String := []
-def permissionInterceptor : List String := []
-def rtspCheckPermission : List String := []
-def rtspHttpAuthed : List String := []
-def rtspCheckAuth : List String := []
-def rtspOnPreprocess : List String := []
-def wspHandshakeData : List String := []
-def wspAcceptsDataChannel : List String := []
-def wspCheckPermission : List String := []
-def wspOnDescribe : List String := []
-def wspOnPlay : List String := []
-end Expected
+
 
 def genCfg : Cfg :=
   { pm := IpcHub.PathMatch.genCfg
-    initResets := decide (Gen.skel_userInit = Expected.userInit)
-    tsPermDir := decide (Gen.skel_permissionInterceptor = Expected.permissionInterceptor)
-    permCanonical := decide (Gen.skel_permissionInterceptor = Expected.permissionInterceptor)
-    wsRtspChecks := decide (Gen.skel_rtspCheckPermission = Expected.rtspCheckPermission) &&
-                    decide (Gen.skel_rtspHttpAuthed = Expected.rtspHttpAuthed) &&
-                    decide (Gen.skel_rtspCheckAuth = Expected.rtspCheckAuth)
-    digestShowsNewNonce := decide (Gen.skel_rtspOnPreprocess = Expected.rtspOnPreprocess)
-    wspJoinChecks := decide (Gen.skel_wspHandshakeData = Expected.wspHandshakeData) &&
-                     decide (Gen.skel_wspAcceptsDataChannel = Expected.wspAcceptsDataChannel)
-    wspPlayChecks := decide (Gen.skel_wspCheckPermission = Expected.wspCheckPermission) &&
-                     decide (Gen.skel_wspOnDescribe = Expected.wspOnDescribe) &&
-                     decide (Gen.skel_wspOnPlay = Expected.wspOnPlay)
+    initResets := decide (Gen.skel_userInit = Expected.skel_userInit)
+    tsPermDir := decide (Gen.skel_permissionInterceptor = Expected.skel_permissionInterceptor)
+    permCanonical := decide (Gen.skel_permissionInterceptor = Expected.skel_permissionInterceptor)
+    wsRtspChecks := decide (Gen.skel_rtspCheckPermission = Expected.skel_rtspCheckPermission) &&
+                    decide (Gen.skel_rtspHttpAuthed = Expected.skel_rtspHttpAuthed) &&
+                    decide (Gen.skel_rtspCheckAuth = Expected.skel_rtspCheckAuth)
+    digestShowsNewNonce := decide (Gen.skel_rtspOnPreprocess = Expected.skel_rtspOnPreprocess)
+    wspJoinChecks := decide (Gen.skel_wspHandshakeData = Expected.skel_wspHandshakeData) &&
+                     decide (Gen.skel_wspAcceptsDataChannel = Expected.skel_wspAcceptsDataChannel)
+    wspPlayChecks := decide (Gen.skel_wspCheckPermission = Expected.skel_wspCheckPermission) &&
+                     decide (Gen.skel_wspOnDescribe = Expected.skel_wspOnDescribe) &&
+                     decide (Gen.skel_wspOnPlay = Expected.skel_wspOnPlay)
     accessTTL := Gen.accessTTL
     refreshTTL := Gen.refreshTTL
     noAuth := Gen.noAuthRequired.map String.toList
